@@ -209,7 +209,15 @@ class Run(object):
         if v['n'] is None:
             # pointer: owning -> only index 0; non-owning -> any in-allocation index (no bounds check in C)
             if v['owning']:
-                i = 0 if sel == 'in' else (1 + r % 3 if sel != 'neg' else -1)
+                if sel == 'in':
+                    i = 0
+                elif sel == 'neg':
+                    i = -1 - r % 2
+                elif sel in ('huge', 'ssmax', 'ssmin'):
+                    # huge indices, including those whose byte offset wraps around to 0 modulo 2**64
+                    i = [2 ** 61, -2 ** 61, 2 ** 62, -2 ** 62, 2 ** 60, -2 ** 63, 2 ** 63 - 1, 2 ** 63 - 8][r % 8]
+                else:
+                    i = 1 + r % 3
                 accept = (i == 0)
             else:
                 a = self.allocs[v['a']]
@@ -408,6 +416,15 @@ class Run(object):
             raise Violation('C16.4', 'p + %d lives %d bytes past the allocation base, expected %d'
                             % (d, addr - base_addr, v['off'] + d * size))
         self.views.append(dict(cd=p, a=v['a'], off=v['off'] + d * size, kind=v['kind'], n=None, owning=False))
+        if v['n'] is None and not v['owning']:
+            try:
+                q = self.ffi.addressof(v['cd'], d)
+            except Exception as e:
+                raise Violation('C16.4', 'ffi.addressof(p, %d) raised %s: %s' % (d, type(e).__name__, e))
+            if int(self.ffi.cast('uintptr_t', q)) != addr:
+                raise Violation('C16.4', 'ffi.addressof(p, %d) != p + %d' % (d, d))
+            if d < 0:
+                self.out.probe('addressof_negative_index_on_pointer')
         if v['n'] is not None and 0 <= d <= v['n']:
             q = self.ffi.addressof(v['cd'], d) if d < v['n'] else None
             if q is not None:
@@ -439,7 +456,10 @@ class Run(object):
 
     def op_offsetof(self, kind, i):
         ctype, fmt, size = KINDS[kind][:3]
-        got = self.ffi.offsetof(ctype + '[]', i)
+        try:
+            got = self.ffi.offsetof(ctype + '[]', i)
+        except Exception as e:
+            raise Violation('C16.4', "ffi.offsetof('%s[]', %d) raised %s: %s" % (ctype, i, type(e).__name__, e))
         if got != i * size or self.ffi.sizeof(ctype) != size:
             raise Violation('C16.4', "ffi.offsetof('%s[]', %d) == %d, expected %d" % (ctype, i, got, i * size))
 
@@ -561,7 +581,7 @@ class C16(core.Check):
             elif n == 'diff':
                 ops.append(['diff', k, rng.below(1000)])
             elif n == 'offsetof':
-                ops.append(['offsetof', rng.choice(KNAMES), rng.randint(0, 1000)])
+                ops.append(['offsetof', rng.choice(KNAMES), rng.choice([rng.randint(0, 1000), -rng.randint(1, 5), -1, 0])])
             elif n in ('bufwrite',):
                 ops.append(['bufwrite', k, r])
             elif n == 'dropview':
